@@ -726,6 +726,17 @@ func c03Exec(t *testing.T, sc *gen.Scenario, trace bool) *harness.Outcome {
 						}
 					}
 				}
+				if !a1 && a2 && ReachesKind(sc.Model, rm.ObjType(rq.Obj), rq.Rel, rm.Difference) {
+					tag += " reaches_exclusion"
+				}
+				if !a1 && a2 {
+					for _, t := range st.Tuples {
+						if !sc.Model.ValidForRead(t) {
+							tag += " state_has_tuple_invalid_for_model"
+							break
+						}
+					}
+				}
 				e.Violate("unreported_divergence", fmt.Sprintf("subj=%s v1=%v v2=%v %s%s", kind, a1, a2, shapeSig(sc.Model, rq), tag), "check(%s#%s@%s ctx=%v): weighted-graph path answered %v, default engine %v, and the breaking-change detector did not report it (warnings: %v)", rq.Obj, rq.Rel, rq.User, rq.Ctx, a2, a1, warns)
 				return
 			} else if reported {
